@@ -98,7 +98,10 @@ def _run_chunk(args):
 
 
 class Aggregate:
-    def __init__(self):
+    def __init__(self, prop=None):
+        self.prop = prop
+        self.known = load_known() if prop else []
+        self.known_hits = {}
         self.runs = 0
         self.digests = set()
         self.nontrivial_digests = set()
@@ -133,7 +136,13 @@ class Aggregate:
         if s.get('herr'):
             self.harness.append(s)
         elif not s['ok']:
-            self.violations.append(s)
+            k = None
+            if self.prop is not None and s.get('case') is not None:
+                k = match_known(self.prop, dict(s['case'], tape=s.get('tape')), s['viol'][0][0], self.known)
+            if k is not None:
+                self.known_hits[k['id']] = self.known_hits.get(k['id'], 0) + 1
+            else:
+                self.violations.append(s)
         if 'sample' in s and len(self.samples) < 6:
             self.samples.append(s['sample'])
         if s.get('extra') is not None:
@@ -143,7 +152,7 @@ class Aggregate:
 def run_batch(spec, tier, base_seed, n_runs, wall_budget, per_run_timeout=120, stop_on_violation=True,
               chunk=None):
     """Run seeds base_seed*10^6 + i.  Returns Aggregate."""
-    agg = Aggregate()
+    agg = Aggregate(spec.check_id)
     t0 = time.time()
     nproc = NPROC
     if chunk is None:
@@ -236,6 +245,10 @@ def match_known(prop, case, vclass, known=None):
             continue
         if 't_min' in cfgc and cfg['t'] < cfgc['t_min']:
             continue
+        if cfgc.get('lifted'):
+            td = (case.get('prog') or {}).get('type') or {}
+            if not (td.get('d') == 1 and cfg['t'] > 0 and cfg['m'] >= td.get('p', 1 << 62)):
+                continue
         return k
     return None
 
